@@ -4,6 +4,7 @@ package table
 
 import (
 	"bytes"
+	"regexp"
 	"time"
 
 	"github.com/grafana/carbon-relay-ng/aggregator"
@@ -185,6 +186,71 @@ func VerifC04IsolationAgg() {
 		verifAssert(bytes.Contains(got, orig), "aggregation-saw-the-name-it-was-handed")
 	default:
 		verifAssert(false, "aggregation-produced-output")
+	}
+	verifCover("end")
+}
+
+// verifC04Rules: concrete rewriter rules covering every combination of literal / regex `old` with
+// substring / regex / absent not-clause (the clauses the statement lists), including the corner spellings
+// "/" (a literal slash, not a regex) and a regex rule with ${n} expansion.
+var verifC04Rules = []struct {
+	old, nw, not string
+	max          int
+}{
+	{"a", "b", "/c$/", -1},       // literal rule, regex not-clause
+	{"a", "bb", "/^c/", 1},        // literal rule with max, regex not-clause
+	{"/a+/", "x", "b", -1},        // regex rule, substring not-clause
+	{"/a/", "b", "/^c/", -1},      // regex rule, regex not-clause
+	{"/(a)(b)/", "${2}${1}", "", -1}, // regex rule with expansion
+	{"/", ".", "", -1},            // one-character literal "/"
+	{"a", "b", "/", -1},           // not-clause that is the literal "/"
+	{"/a", "b", "c/", -1},         // slashes on one side only: literals
+}
+
+// VerifC04Rules: Table.Dispatch with one rule of the family above and a symbolic name. Reference: the rule is
+// skipped iff its not-clause (regex when spelled /…/ with at least one character between the slashes... i.e.
+// length > 1, else substring) matches the name; otherwise a /regex/ rule replaces every match with ${n}
+// expansion and a literal rule replaces the first max occurrences. The reference uses the regexp library
+// directly, so what is checked is which clause is applied to what, not the library.
+func VerifC04Rules() {
+	k := verifParamInt("rule", 0)
+	rule := verifC04Rules[k]
+	t := verifNewTable(m20.NoneLegacy, m20.NoneM20, false)
+	all, _ := matcher.New("", "", "", "", "", "")
+	r := &verifCapRoute{key: "r", m: all}
+	t.AddRoute(r)
+	rw, err := rewriter.New(rule.old, rule.nw, rule.not, rule.max)
+	verifAssert(err == nil, "rewriter-accepted")
+	if err != nil {
+		return
+	}
+	t.AddRewriter(rw)
+	name := verifBytes("name", 1+verifChoice("namelen", verifParamInt("maxname", 3)))
+	for _, b := range name {
+		verifAssume(b > 0x20 && b < 0x7f && b != '=' && b != '_' && b != ';')
+	}
+	line := append(append([]byte{}, name...), []byte(" 1 2")...)
+	t.Dispatch(line)
+
+	isRe := func(s string) bool { return len(s) > 1 && s[0] == '/' && s[len(s)-1] == '/' }
+	want := append([]byte{}, name...)
+	skip := false
+	if isRe(rule.not) {
+		skip = regexp.MustCompile(rule.not[1 : len(rule.not)-1]).Match(name)
+	} else if rule.not != "" {
+		skip = bytes.Contains(name, []byte(rule.not))
+	}
+	if !skip {
+		if isRe(rule.old) {
+			want = regexp.MustCompile(rule.old[1:len(rule.old)-1]).ReplaceAll(name, []byte(rule.nw))
+		} else {
+			want = verifSpecReplace(name, []byte(rule.old), []byte(rule.nw), nil, rule.max)
+		}
+	}
+	want = append(append([]byte{}, want...), []byte(" 1 2")...)
+	verifAssert(len(r.got) == 1, "delivered-once")
+	if len(r.got) == 1 {
+		verifAssert(string(r.got[0]) == string(want), "rule-applied-or-skipped-as-its-clauses-say")
 	}
 	verifCover("end")
 }
